@@ -68,7 +68,9 @@ class FieldIdGenerator:
     @classmethod
     def unbind_schema(cls, schema):
         for field in schema.fields:
-            delattr(field, "id")
+            # the same field object may appear several times (e.g. select("a", "a"))
+            if hasattr(field, "id"):
+                delattr(field, "id")
             if isinstance(field, StructType):
                 cls.unbind_schema(field)
         return schema
